@@ -50,6 +50,7 @@ THEOREMS = [
     "OllamaVerif.C14.no_stop_in_output_partial",
     "OllamaVerif.C14.no_stop_in_output_fixed",
     "OllamaVerif.C14.single_stop",
+    "OllamaVerif.C14.consumer_schedule_independent",
     "OllamaVerif.C14.F7_first_listed_not_earliest",
     "OllamaVerif.C14.F20_invalid_bytes_dropped",
     "OllamaVerif.C14.F20_reason_not_injective",
@@ -59,6 +60,7 @@ THEOREMS = [
     "OllamaVerif.Stop.truncateStop_flatten",
     "OllamaVerif.Stop.findStopEarliest_spec",
     "OllamaVerif.Stop.consumed_gen",
+    "OllamaVerif.Stop.runSched_eq_run",
 ]
 # Model variant the oracle is asked to run: 1 = FindStop as pinned in /repo (first listed stop, finding F7),
 # 0 = the repaired FindStop of proposed_fixes/C14-F7.patch.  ONE EDIT when the fix is applied to /repo: set to 0
@@ -70,7 +72,10 @@ OV_COMMON = {
     "runner/common/zz_verif_c14_test.go": "runner_common/zz_verif_c14_test.go",
     "runner/common/zz_verif_c14_extract_test.go": "runner_common/zz_verif_c14_extract_test.go",
 }
-OV_OLLAMA = {"runner/ollamarunner/zz_verif_c14_test.go": "runner_ollamarunner/zz_verif_c14_test.go"}
+OV_OLLAMA = {
+    "runner/ollamarunner/zz_verif_c14_test.go": "runner_ollamarunner/zz_verif_c14_test.go",
+    "runner/ollamarunner/zz_verif_c14_sched_test.go": "runner_ollamarunner/zz_verif_c14_sched_test.go",
+}
 OV_LLAMA = {"runner/llamarunner/zz_verif_c14_test.go": "runner_llamarunner/zz_verif_c14_test.go"}
 
 
@@ -142,6 +147,16 @@ def run(ctx):
         ctx.violation("driver-failed", "", out[-1500:], no_input=True)
     ctx.read_stats(outdir)
     ctx.l1(outdir, label="L1-loop")
+    ctx.classify(ctx.l2(outdir))
+
+    # (2b) the same real loop with a lagging reader of seq.responses (consumer schedules, synctest bubble)
+    env = {"VERIF_N": ctx.scale(500, 20000), "VERIF_C14_PINNED": PINNED_FINDSTOP}
+    env.update(env_replay)
+    rc, out, outdir = ctx.go_test("./runner/ollamarunner/", OV_OLLAMA, "^TestVerifC14Sched$", env=env, timeout=2400)
+    if rc != 0:
+        ctx.violation("driver-failed", "", out[-1500:], no_input=True)
+    ctx.read_stats(outdir)
+    ctx.l1(outdir, label="L1-sched")
     ctx.classify(ctx.l2(outdir))
 
     # (3) llamarunner's own copy of flushPending
